@@ -254,7 +254,7 @@ def obligations(tier):
         Obligation('O6-add-and-divide', o_add_determinant, code=[G + 'Group.__iadd__', G + 'Group.add_determinant', G + 'Group.__truediv__'],
                    bounds='2+1 determinants, symbolic values and divisor in [1,5]', claim_doc='merge by partner; division scales every field'),
     ]
-    fx = [('nterm_ASP_LYS', ()), ('pep8', ()), ('lig_MTX', ()), ('pair_GLU_ARG_TYR', ()), ('pair_CYS_CYS_bridge', ())]
+    fx = [('nterm_ASP_LYS', ()), ('pep8', ()), ('lig_MTX', ()), ('pair_GLU_ARG_TYR', ()), ('pair_CYS_CYS_bridge', ()), ('complex_MTX', ())]
     if tier == 'thorough':
         fx += [('pair_ASP_ARG', ()), ('pair_LYS_ASP', ()), ('pair_ASP_ASP', ('-d',)), ('lig_KNI', ()), ('cterm_PHE', ()), ('tri_HIS', ()), ('nterm_ASP_LYS', ('-d',))]
     from .micro import BURIED, COUPLED
@@ -262,14 +262,14 @@ def obligations(tier):
     # non-covalently coupled pairs present; with -d the groups are left in the alternative (swapped) state
     fxp += [(n, a, COUPLED, ',coupled') for n in (['pep8', 'pair_ASP_ARG'] if tier == 'quick' else ['pep8', 'pair_ASP_ARG', 'pair_ASP_ASP', 'pair_GLU_ARG_TYR', 'pair_LYS_ASP']) for a in (('-d',), ())]
     for name, args, params, ptag in fxp:
-      if True:
+      if not (tier == 'quick' and name.startswith('complex') and not params):
         obs.append(Obligation('O2-pipeline-end-state[%s%s%s]' % (name, ',' + ' '.join(args) if args else '', ptag), mk_pipeline_sum(name, args, params),
                               code=['propka/conformation_container.py:ConformationContainer.calculate_pka', 'propka/conformation_container.py:ConformationContainer.coupling_effects',
                                     G + 'Group.remove_determinants', G + 'Group.calculate_total_pka', 'propka/molecular_container.py:MolecularContainer.average_of_conformations',
                                     'propka/output.py:get_determinant_section'],
                               bounds='micro-structure %s %s%s under a symbolic grid translation t in [0,2.509] along z; whole pipeline' % (name, ' '.join(args), (' (Nmin/Nmax lowered to 6/30: burial, Coulomb, iterative paths active' + ('; coupling thresholds relaxed: non-covalently coupled pairs, swaps and the -d alternative state active' if params is COUPLED else '') + ')') if params else ''),
                               claim_doc='in every conformation and the average pKa == model + desolvation + the determinants then listed; written rows add up to the printed pKa',
-                              max_paths=5000, wall_s=170 if tier == 'quick' else 1200))
+                              max_paths=5000, wall_s=170 if tier == 'quick' else 1200, split_input=('shift_thousandths', 8) if name.startswith('complex') else None))
     if tier == 'thorough':
         obs.append(Obligation('O4-average-K3', mk_average(3), code=obs[1].code,
                               bounds='3 conformations', claim_doc=obs[1].claim_doc, max_paths=5000))
